@@ -45,14 +45,26 @@ func main() {
 	vlib.Main("C14", all...)
 }
 
+// scramble is a bijection on [0, 2^bits): the enumeration index is mapped to
+// the edge mask through it so that "case index mod shards" (the runtime's
+// sharding rule) is not a fixed pattern of the first few edges, which would
+// give the shards very different work (e.g. root 0 without out-arcs).
+func scramble(k uint32, bits int) uint32 {
+	if bits < 2 {
+		return k
+	}
+	return k ^ (k >> uint((bits+1)/2))
+}
+
 // forDirected enumerates every directed graph on 0..maxNodes nodes.
 func forDirected(g *vlib.G, maxNodes int, f func(key string, s gspec)) {
 	for n := 0; n <= maxNodes; n++ {
 		arcs := n * (n - 1)
-		for mask := uint32(0); mask < 1<<uint(arcs); mask++ {
+		for k := uint32(0); k < 1<<uint(arcs); k++ {
 			if g.Stopped() {
 				return
 			}
+			mask := scramble(k, arcs)
 			f(fmt.Sprintf("n=%d arcs=%#x", n, mask), directedSpec(n, mask))
 		}
 	}
@@ -62,10 +74,11 @@ func forDirected(g *vlib.G, maxNodes int, f func(key string, s gspec)) {
 func forUndirected(g *vlib.G, maxNodes int, f func(key string, s gspec)) {
 	for n := 0; n <= maxNodes; n++ {
 		pairs := n * (n - 1) / 2
-		for mask := uint32(0); mask < 1<<uint(pairs); mask++ {
+		for k := uint32(0); k < 1<<uint(pairs); k++ {
 			if g.Stopped() {
 				return
 			}
+			mask := scramble(k, pairs)
 			f(fmt.Sprintf("n=%d edges=%#x", n, mask), undirectedSpec(n, mask))
 		}
 	}
@@ -187,6 +200,7 @@ func forDirected5(g *vlib.G, quickStep uint32, f func(key string, s gspec)) {
 		if step > 1 {
 			m = (k * 0x9E375) & (1<<arcs - 1)
 		}
+		m = scramble(m, arcs)
 		f(fmt.Sprintf("n=5 arcs=%#x", m), directedSpec(5, m))
 	}
 }
